@@ -5,20 +5,14 @@ from .. import histories
 
 META = {
     "level": "exploration",
-    "rule": ("history = seeded sequence of 1-15 operations from {shift_common(), shift_common(v), append, update, "
-             "filtered, sliced, slices1d, reindexed (7 mapping kinds + default), collapsed, copy, column_stack, "
-             "entry-wise set updates, observations, INDX save/load, from_array} over a pool of live indexes (1-D, 2-D, "
-             "3-D for slicing) paired with NumPy models; evaluations = operations executed and judged. Non-trivial: "
-             "history with >=2 steps of different kinds on an index with >=2 distinct values; distinct by hash of the "
-             "operation log"),
+    "rule": ("history = seeded sequence of 1-15 operations from {shift_common(), shift_common(v), append, update, filtered, sliced, slices1d, reindexed (7 mapping kinds + default), collapsed, copy, column_stack, entry-wise set updates, observations, INDX save/load, from_array} over a pool of live indexes (1-D, 2-D, 3-D for slicing) paired with NumPy models; every live object of the pool is re-checked after every step; masks / order lists / mappings re-used after in-place changes; counts, mappings and common values given as NumPy scalars; INDX-loaded read-only arrays kept; sparse 2-D indexes of >2^22 cells; append onto ~2^32 rows with a sparse model; evaluations = operations executed and judged. Non-trivial: history with >=2 steps of different kinds on an index with >=2 distinct values; distinct by hash of the operation log"),
     "require": {t: ["op:shift_common", "op:shift_common_v", "op:append", "op:update", "op:filtered", "op:sliced",
                     "op:slices1d", "op:reindexed", "op:reindexed_default", "op:collapsed", "op:copy",
                     "op:column_stack", "op:set_update", "op:observe", "op:indx_save_load", "op:from_array",
                     "observe:checked", "set_update:checked", "op:set_update_inplace", "bystanders:checked",
                     "class:index_with_more_than_2^22_cells"] for t in ("quick", "thorough")},
     "assumptions": [
-        "slices1d: every slice must be yielded once, labelled with its own higher coordinates; the order of the "
-        "slices is not judged",
+        "slices1d: every slice must be yielded once, labelled with its own higher coordinates; the order of the slices is not judged",
         "sliced is given one argument per higher axis; order lists are duplicate-free",
         "precedence lists are duplicate-free (a precedence order lists each value once)",
         "entry-wise set updates are judged at the entry level on scratch copies (they do not preserve dense semantics)"],
